@@ -11,7 +11,7 @@ RULE = ("(X) EXHAUSTIVE: every string of length <= 4 (quick) / <= 5 (thorough) o
         "periodic-table and aromatic symbol x isotope x chirality x H count x charge x map number, embedded in molecule contexts; "
         "(R) corpus reactions with their shipped atom maps and with random maps; model output compared string-exactly.  Property "
         "oracle (RDKit only) on every valid closed-shell string: each molecule after map removal is the same molecule as the original "
-        "with its maps cleared; no ':digit' survives; pipeline outputs carry no map.  Non-trivial: a string containing a bracket atom "
+        "with its maps cleared; no ':digit' survives; pipeline outputs carry no map -- for lists of strings, lists of dicts, Dataset(list / json / csv) inputs and for a cached re-run of one Balancer after remove_aam is switched on.  Non-trivial: a string containing a bracket atom "
         "with a map number; distinct = distinct string.")
 ASSUMPTIONS = ["inputs are ASCII (Python's \\d would also match non-ASCII digits)", "RDKit decides molecule identity (canonical SMILES after clearing maps)"]
 TRUSTED = ["Python re as the implementation's engine; RDKit for the identity oracle"]
@@ -235,6 +235,52 @@ def run(ctx):
             ok = same_molecules(inp, r["input_reaction"] or "")
             if ok is False:
                 ctx.fail(classify(inp), {"smiles": inp}, {"input_reaction": r["input_reaction"]})
+    # ---- the same for every input form of the public API (a form that skips the map removal is a form on which the property fails)
+    # and for one Balancer whose remove_aam switch is turned on between two cached runs
+    import tempfile, shutil, csv as _csv
+    from synrbl import Balancer
+    from synrbl.SynUtils.batching import Dataset
+    tmpd = tempfile.mkdtemp(prefix="c15forms_")
+    try:
+        mapped = [x for x in partial if re.search(r":\d+\]", x)][:10 if ctx.quick() else 40]
+        rows_in = [{"reaction": x} for x in mapped]
+        jp, cp = os.path.join(tmpd, "in.json"), os.path.join(tmpd, "in.csv")
+        with open(jp, "w") as f:
+            json.dump(rows_in, f)
+        with open(cp, "w", newline="") as f:
+            w = _csv.writer(f); w.writerow(["reaction"]); [w.writerow([x]) for x in mapped]
+        forms = {"list-of-dicts": lambda: rows_in, "Dataset(list)": lambda: Dataset([dict(d) for d in rows_in]),
+                 "Dataset(json)": lambda: Dataset(jp), "Dataset(csv)": lambda: Dataset(cp)}
+
+        def keeps_map(rows, form, extra=None):
+            for inp, r in zip(mapped, rows):
+                ctx.evaluations += 1
+                for col in ("reaction", "input_reaction"):
+                    if re.search(r":\d+\]", (r.get(col) or "") if isinstance(r, dict) else str(r)):
+                        case = {"inputs": [inp], "form": form}
+                        if extra:
+                            case.update(extra)
+                        ctx.fail("pipeline-output-keeps-atom-map", case, {"column": col, "value": r.get(col)})
+                        return
+        for form, mk in forms.items():
+            try:
+                rows = Balancer(n_jobs=1).rebalance(mk(), output_dict=True)
+            except Exception as e:
+                ctx.count("P", "input_form_raised:%s" % form)
+                continue
+            ctx.count("P", "input_form:%s" % form)
+            if len(rows) == len(mapped):
+                keeps_map(rows, form)
+        bal = Balancer(n_jobs=1, cache=True, cache_dir=os.path.join(tmpd, "cache"), batch_size=4)
+        bal.remove_aam = False
+        bal.rebalance(list(mapped), output_dict=True)
+        bal.remove_aam = True
+        rows = bal.rebalance(list(mapped), output_dict=True)
+        ctx.count("P", "cached_reruns_with_remove_aam_switched_on")
+        if len(rows) == len(mapped):
+            keeps_map(rows, "list-of-str", {"history": "one Balancer, cache on: remove_aam=False, then remove_aam=True on the same batch"})
+    finally:
+        shutil.rmtree(tmpd, ignore_errors=True)
     bad2, err2 = eval_cases("c15strip", HDR, "", strip_exprs, ctx.work, shard=400)
     for i in bad2:
         ctx.mismatch("preprocess' atom-map removal (recorded) vs Model/Aam.remove_atom_mapping", strip_meta[i][0], strip_meta[i][1], "model disagrees")
